@@ -25,7 +25,10 @@ RULE = (
     "and an epoch that makes its values identical to, or different from, "
     "earlier ones; engines h5netcdf/joblib; data names with and without "
     "extension; 1-2 variables (one with an internal dimension).  A second "
-    "phase does the same for save_merge_ds on a bare file.  Model: "
+    "phase does the same for save_merge_ds on a bare file; a third harvests "
+    "over a DATE-valued argument (datetime objects, numpy dates of unit "
+    "D / s / ns) with a number and a text output (the text is empty at a "
+    "third of the settings), all three policies and new sessions.  Model: "
     "dict[coordinates] -> values with the three policies (None: identical/"
     "disjoint merge, a conflict raises and NOTHING changes; True: new wins; "
     "False: old wins).  After EVERY step: Harvester.full_ds == model by "
@@ -478,6 +481,114 @@ def run_merge(case):
                         "conflict" if conflicts else "no-conflict"]}
 
 
+# ------------------------------------- date labels and string-valued outputs
+
+DATES = ["2021-03-01", "2021-03-02", "2021-04-15", "2022-01-01"]
+
+
+def date_label(i, spelling):
+    import datetime
+    s = DATES[i % len(DATES)]
+    if spelling == "datetime":
+        return datetime.datetime.fromisoformat(s)
+    if spelling == "np_s":
+        return np.datetime64(s, "s")
+    if spelling == "np_D":
+        return np.datetime64(s)
+    return np.datetime64(s, "ns")
+
+
+def dated_fn(d, b, epoch=0):
+    day = int(np.datetime64(d, "D").astype(int))
+    n = models.kw_number({"day": day, "b": b}, salt=5)
+    # a number, and a text that is EMPTY at some settings
+    return float(n % 4096) + epoch, ("" if n % 3 == 0 else "v%d" % (n % 97))
+
+
+def run_dated(case):
+    """Harvests over a date-valued argument (given as datetime objects or
+    numpy dates of several units) and with a string-valued output."""
+    x = xyz()
+    import xarray as xr
+    engine = case["engine"]
+    sp = case["spelling"]
+    bs = ["p", "q"][:case["nb"]]
+    model = {}
+    with core.scratch("xv-c05d-") as root:
+        dname = os.path.join(root, case["dname"])
+
+        def session(epoch):
+            r = x.Runner(dated_fn, ("num", "txt"), resources={"epoch": epoch})
+            return x.Harvester(r, data_name=dname, engine=engine)
+        h = session(0)
+        conflicts = 0
+        for k, op in enumerate(case["ops"]):
+            if op.get("new_session"):
+                h = session(0)
+            idx = sorted({i % len(DATES) for i in op["dates"]})
+            labels = [date_label(i, sp) for i in idx]
+            h.runner.resources = {"epoch": op["epoch"]}
+            new = {(i, b): op["epoch"] for i in idx for b in bs}
+            pol = op["overwrite"]
+            clash = any(model.get(kk, e) != e for kk, e in new.items())
+            raised = None
+            try:
+                with under_test(f"step {k}", expect=(xr.MergeError,)):
+                    h.harvest_combos({"d": labels, "b": bs}, overwrite=pol,
+                                     verbosity=0)
+            except xr.MergeError as e:
+                raised = e
+            if pol is None and clash:
+                conflicts += 1
+                require(raised is not None, "conflict-not-refused",
+                        f"step {k}: dates {[DATES[i] for i in idx]} given as "
+                        f"{sp}: conflicting values (epoch {op['epoch']}) "
+                        f"merged silently under the default policy")
+            else:
+                require(raised is None, "spurious-conflict",
+                        f"step {k}: {raised!r:.300}")
+                for kk, e in new.items():
+                    if kk not in model or pol is True or pol is None:
+                        model[kk] = e
+            # ---- memory and disk, by label
+            for what, ds in (("full_ds", h.full_ds),
+                             ("load_ds", x.load_ds(dname, engine=engine))):
+                for (i, b), e in model.items():
+                    lab = np.datetime64(DATES[i], "ns")
+                    sel = ds.sel(d=lab, b=b)
+                    wnum, wtxt = dated_fn(DATES[i], b, e)
+                    gnum = float(sel["num"].values)
+                    gtxt = sel["txt"].values.item()
+                    require(gnum == wnum, "harvested-value",
+                            f"step {k}: {what} num at ({DATES[i]}, {b}) = "
+                            f"{gnum}, harvested {wnum}")
+                    require(isinstance(gtxt, str) and gtxt == wtxt,
+                            "harvested-text",
+                            f"step {k}: {what} txt at ({DATES[i]}, {b}) = "
+                            f"{gtxt!r}, harvested {wtxt!r}")
+    return {"nontrivial": len(case["ops"]) >= 2,
+            "classes": ["date-labels", f"spelling={sp}", f"engine={engine}",
+                        "conflict" if conflicts else "no-conflict"]}
+
+
+@st.composite
+def dated_strategy(draw):
+    op = st.fixed_dictionaries({
+        # (every harvest covers the full b range and whole dates: a text
+        # variable with holes cannot be stored - noted in DESIGN section 7)
+        "dates": st.lists(st.integers(0, 3), min_size=1, max_size=3),
+        "epoch": st.sampled_from([0, 0, 1]),
+        "overwrite": st.sampled_from([None, None, True, False]),
+        "new_session": st.booleans()})
+    return {"ops": draw(st.lists(op, min_size=1, max_size=5)),
+            "nb": draw(st.integers(1, 2)),
+            "spelling": draw(st.sampled_from(["datetime", "np_s", "np_D",
+                                              "np_ns"])),
+            "engine": draw(st.sampled_from(["h5netcdf", "h5netcdf",
+                                            "joblib"])),
+            "dname": draw(st.sampled_from(["dated.h5", "dated"]))}
+
+
 # ---------------------------------------------------------------- strategies
 
 idx = st.integers(0, 11)
@@ -543,4 +654,6 @@ PHASES = [
           examples={"quick": 1200, "thorough": 40000}),
     Phase("save_merge_ds", run_merge, strategy=merge_strategy,
           examples={"quick": 400, "thorough": 12000}),
+    Phase("date-labels", run_dated, strategy=dated_strategy,
+          examples={"quick": 300, "thorough": 8000}),
 ]
